@@ -303,7 +303,7 @@ def _same_input(a, b) -> bool:
 def _contains_opaque(d: dict) -> bool:
     c = d["c"]
     if c == "atom":
-        return d["a"] in ("obj",)
+        return d["a"] in ("obj",) or d["a"] in univ.STATEFUL_TOKENS       # (streams are made afresh for every call: str() of them differs)
     if c in ("gen", "citer", "cmap"):
         return True
     if c in ("dict",):
